@@ -1,6 +1,7 @@
 """C13 — local recipients are accepted exactly when the vpopmail mailbox exists
 (qsmtpd/backends/user_vpopm/vpop.c: user_exists, qmexists, vget_dir; lib/cdb.c)."""
 import runlib as R
+import c13_cdbgen
 
 ID = 'C13'
 COQ_TARGETS = ['Props/Properties_C13.vo']
@@ -9,7 +10,9 @@ THEOREMS = ['C13_exists', 'C13_exact', 'C13_confined', 'C13_bounce_line', 'C13_c
             'C13_reply', 'C13_reply_exact', 'C13_model_passes_rcpt_checker']
 SHRINK_FROM = 3      # keep users/cdb and the domain of a failing case, shrink layout / bounce / local part / tail
 ENGINES = [dict(name='vpop', c_sources=['vpop_h.c'], extract='Extract/Extract_vpop.v', driver='vpop_driver.ml',
-                glue=('glue.ml', 'glue_z.ml'), accepts=lambda c: c.startswith('c1 ') or c.startswith('c2 '))]
+                glue=('glue.ml', 'glue_z.ml'), accepts=lambda c: c.startswith('c1 ') or c.startswith('c2 ')),
+           dict(name='cdb', c_sources=['cdb_h.c'], extract='Extract/Extract_cdb.v', driver='cdb_driver.ml',
+                glue=('glue.ml', 'glue_z.ml'), accepts=lambda c: c[:3] in ('d1 ', 'd2 ', 'a1 '))]
 RULE = ('c1 cases = user_exists() on (users/cdb records, domain, domain directory layout, control/vpopbounce, local part, bytes following the local '
         'part in memory); layouts are derived from the local part: each documented form present / absent / present only under a '
         'near-miss name (dots not mapped, prefix cut one byte early or late, prefix reaching into the domain) / failing with an '
@@ -200,6 +203,8 @@ def gen_rcpt(rng):
 
 
 def gen_cases(engine, rng, tier):
+    if engine == 'cdb':
+        return c13_cdbgen.gen_cases(rng, tier)
     n = 2200 if tier == 'quick' else 40000
     out = [gen_rcpt(rng) for _ in range(n // 4)]
     for i in range(n):
